@@ -497,6 +497,13 @@ func (aof *AppendableFile) readAt(bs []byte, off int64) (n int, err error) {
 
 	if off < aof.fileOffset {
 		n, err = aof.f.ReadAt(bs, aof.fileBaseOffset+off)
+
+		// bytes stored in the file beyond fileOffset are not part of the appendable
+		// (leftovers after SetOffset or pre-allocated space), newer data may be in the buffer
+		if int64(n) > aof.fileOffset-off {
+			n = int(aof.fileOffset - off)
+			err = nil
+		}
 	} else {
 		boff = int(off - aof.fileOffset)
 	}
